@@ -90,7 +90,7 @@ def validate_traces(chk, hist, bad, rtol_rhs=1e-9):
         y_last = tr.step_ys[-1]
         lines.append(MT.update_line(sc, params, prev_o, y_last))
         meta.append(("update", u, None))
-        for call in tr.rhs_calls[:6]:
+        for call in tr.rhs_calls + tr.rhs_tail:
             if call["out"] is None:
                 continue
             L, s, Sd = MT.oracle_values(hist["get_L"], hist["get_x"], call["t"], call["y"])
@@ -193,7 +193,7 @@ def run(chk):
             chk.cov["traces_validated_against_impl"] = chk.cov["evaluations"]
             # reproducibility of default-constructed minerals
             import pydrex as px
-            for seed in (1, 7, 2024):
+            for seed in (0, np.int64(0), 1, 7, 2024):
                 a, b = px.Mineral(n_grains=40, seed=seed), px.Mineral(n_grains=40, seed=seed)
                 if not (np.array_equal(a.orientations[0], b.orientations[0]) and np.array_equal(a.fractions[0], b.fractions[0])):
                     mon.append(({"seed": seed}, 0, "default-constructed mineral not reproducible from its seed"))
